@@ -1,5 +1,103 @@
 import Ptn.C04.Model
-/-! Line-protocol handler for the C04 model (core Lean only). -/
+/-! Line-protocol handler for C04 (core Lean only).
+
+A node is written `<parent|->/<child,child,…|->`; identifiers are natural numbers; an identifier
+transformation is an offset (`id_trafo(n) = n + off`).  Answers are `legs <leg>… | binds <leg>~<leg>…`
+(free legs in axis order, bound pairs in binding order) or `error` (the library would raise).
+Leg tokens: kN<n> kP bN<n> bP oN<n> oO oI BK<n> BO<n> BB<n>.
+
+  detidx <node> <neighbour> <ignored>                     → `<index>` | error
+  equiv <node1> <node2> <ignore,…|-> <off>                → `<l1,…> | <l2,…>` | error
+  allbut <axis> <three> <node> <next>                     → contract_all_but_one_neighbour_block_to_ket (axis 0)
+                                                             / …_to_hamiltonian (axis 1) on the standard tensors
+  all <axis> <three> <node>                               → contract_all_neighbour_blocks_to_ket / …_hamiltonian
+  any <ketnode> <branode> <next> <off>                    → state_state contract_any_nodes
+  root <ketnode> <branode>                                → contract_node_with_environment_nodes
+  opany <ketnode> <opnode> <branode> <next> <offOp> <offBra> → contract_any_node_environment_but_one
+  oproot <ketnode> <opnode>                               → state_operator contract_node_with_environment
+-/
 namespace Ptn.C04
-def handle (args : List String) : String := "bad-op"
+
+def parseList (s : String) : Option (List Nat) :=
+  if s = "-" then some [] else (s.splitOn ",").mapM (·.toNat?)
+
+def parseNode (s : String) : Option Node :=
+  match s.splitOn "/" with
+  | [p, c] =>
+    match parseList c with
+    | none => none
+    | some cs =>
+      if p = "-" then some ⟨none, cs⟩ else
+        match p.toNat? with
+        | some x => some ⟨some x, cs⟩
+        | none => none
+  | _ => none
+
+def showLeg : Leg → String
+  | .ketNb n => s!"kN{n}" | .ketPhys => "kP"
+  | .braNb n => s!"bN{n}" | .braPhys => "bP"
+  | .opNb n => s!"oN{n}" | .opOut => "oO" | .opIn => "oI"
+  | .blkKet n => s!"BK{n}" | .blkOp n => s!"BO{n}" | .blkBra n => s!"BB{n}"
+
+def showT : Option T → String
+  | none => "error"
+  | some t =>
+    ("legs " ++ " ".intercalate (t.legs.map showLeg)).trimAscii.toString ++ " | " ++
+    ("binds " ++ " ".intercalate (t.binds.map fun p => showLeg p.1 ++ "~" ++ showLeg p.2)).trimAscii.toString
+
+def showNats (l : List Nat) : String := if l.isEmpty then "-" else ",".intercalate (l.map toString)
+
+def parseBool (s : String) : Option Bool :=
+  if s = "0" then some false else if s = "1" then some true else none
+
+/-- the bra tensor on a node whose neighbour identifiers are the transformed ones -/
+def handle (args : List String) : String :=
+  match args with
+  | ["detidx", nd, a, b] =>
+    match parseNode nd, a.toNat?, b.toNat? with
+    | some nd, some a, some b =>
+      match determineIndexWithIgnoredLeg nd a b with
+      | some i => toString i
+      | none => "error"
+    | _, _, _ => "bad-op"
+  | ["equiv", n1, n2, ign, off] =>
+    match parseNode n1, parseNode n2, parseList ign, off.toNat? with
+    | some n1, some n2, some ign, some off =>
+      match getEquivalentLegs n1 n2 ign (· + off) with
+      | some (a, b) => showNats a ++ " | " ++ showNats b
+      | none => "error"
+    | _, _, _, _ => "bad-op"
+  | ["allbut", axis, three, nd, next] =>
+    match parseBool axis, parseBool three, parseNode nd, next.toNat? with
+    | some axis, some three, some nd, some next =>
+      if axis then showT (contractAllButOneNeighbourBlockToHamiltonian (opT nd) nd next (cacheBut three next))
+      else showT (contractAllButOneNeighbourBlockToKet (ketT nd) nd next (cacheBut three next))
+    | _, _, _, _ => "bad-op"
+  | ["all", axis, three, nd] =>
+    match parseBool axis, parseBool three, parseNode nd with
+    | some axis, some three, some nd =>
+      if axis then showT (contractAllNeighbourBlocksToHamiltonian (opT nd) nd (cacheAll three))
+      else showT (contractAllNeighbourBlocksToKet (ketT nd) nd (cacheAll three))
+    | _, _, _ => "bad-op"
+  | ["any", kn, bn, next, off] =>
+    match parseNode kn, parseNode bn, next.toNat?, off.toNat? with
+    | some kn, some bn, some next, some off =>
+      showT (contractAnyNodes next kn bn (ketT kn) (braT bn) (cacheBut false next) (· + off))
+    | _, _, _, _ => "bad-op"
+  | ["root", kn, bn] =>
+    match parseNode kn, parseNode bn with
+    | some kn, some bn => showT (contractNodeWithEnvironmentNodes kn (ketT kn) bn (braT bn) (cacheAll false))
+    | _, _ => "bad-op"
+  | ["opany", kn, on, bn, next, offOp, offBra] =>
+    match parseNode kn, parseNode on, parseNode bn, next.toNat?, offOp.toNat?, offBra.toNat? with
+    | some kn, some on, some bn, some next, some offOp, some offBra =>
+      showT (opContractAnyNodeEnvironmentButOne next kn (ketT kn) on (opT on) (cacheBut true next) bn (braT bn)
+        (· + offOp) (· + offBra))
+    | _, _, _, _, _, _ => "bad-op"
+  | ["oproot", kn, on] =>
+    match parseNode kn, parseNode on with
+    | some kn, some on => showT (opContractNodeWithEnvironment kn (ketT kn) on (opT on) (braT kn) (cacheAll true))
+    | _, _ => "bad-op"
+  | _ => "bad-op"
+
 end Ptn.C04
